@@ -122,10 +122,12 @@ class C01(Check):
               "containers, no filter) keyed variable -> flux",
         "A6": "name-keyed pairing in the time-course forms: each row handed to _get_args / _get_right_hand_side is keyed by the frame's "
               "own column labels (row.to_dict() / zip(frame.columns, ..)), never paired positionally with an independently ordered name list",
+        "A7": "point queries evaluate at the supplied state and time: the state handed to _get_args is the caller's `variables` (the "
+              "resolved initial conditions only when none is given) and the time argument is forwarded",
         "A5": "entry-point agreement: flux queries request exactly reactions + surrogate fluxes; every query entry point reaches _get_args "
               "(or consumes its output); component classes evaluate fn(*(values[a] for a in args)) and store under their own name",
     }
-    floors = {"A1": 4, "A2": 5, "A3": 4, "A4": 2, "A5": 8, "A6": 2}
+    floors = {"A1": 4, "A2": 5, "A3": 4, "A4": 2, "A5": 10, "A6": 2, "A7": 2}
     decided = [
         "both right-hand-side assemblers compute sum over static and state-dependent coefficients times fluxes, on one consistent value mapping",
         "vector form: declaration order, one entry per variable, 0 for untouched variables; integrator input/output use the same order",
@@ -142,6 +144,7 @@ class C01(Check):
         self.a4(mod)
         self.a5(mod)
         self.a6(mod)
+        self.a7(mod)
 
     # ------------------------------------------------------------------
     def a1(self, mod) -> None:
@@ -380,6 +383,16 @@ class C01(Check):
                 self.holds("A5", MOD, f"Model.{ep}", "reaches-_get_args", methods[ep], "evaluates through _get_args")
             else:
                 self.violated("A5", MOD, f"Model.{ep}", "reaches-_get_args", methods[ep], "entry point does not evaluate through _get_args: it can disagree with the other entry points")
+        for qn in ("get_args", "_get_args_time_course"):
+            f2 = methods[qn]
+            ro = [l for l in ast.walk(f2) if isinstance(l, ast.For) and norm(l.iter) == "self._readouts.items()"]
+            ok = ro and isinstance(ro[0].target, ast.Tuple) and len(ro[0].body) == 1 and \
+                norm(ro[0].body[0]) in (f"{norm(ro[0].target.elts[1])}.calculate_inpl({norm(ro[0].target.elts[0])}, raw)", f"{norm(ro[0].target.elts[1])}.calculate_inpl({norm(ro[0].target.elts[0])}, args)")
+            if ok:
+                self.holds("A5", MOD, f"Model.{qn}", "readouts-under-own-name", ro[0], "each readout is evaluated on the full value mapping and stored under its own name")
+            else:
+                self.violated("A5", MOD, f"Model.{qn}", "readouts-under-own-name", ro[0] if ro else f2, "readouts are not each evaluated on the value mapping and stored under their own name",
+                              witness="get_args(include_readouts=True) overwrites another quantity / misses a readout")
         tc = methods["get_right_hand_side_time_course"]
         if any(isinstance(c, ast.Call) and norm(c.func) == "self._get_right_hand_side" and {k.arg: norm(k.value) for k in c.keywords}.get("args") == "variables.to_dict()" for c in ast.walk(tc)):
             self.holds("A5", MOD, "Model.get_right_hand_side_time_course", "consumes-args-table", tc, "each row of the argument table is passed to _get_right_hand_side")
@@ -402,6 +415,23 @@ class C01(Check):
             self.holds("A5", SUR, "AbstractSurrogate.calculate_inpl", "component-evaluation", sur["calculate_inpl"], "outputs merged into the value mapping")
         else:
             self.violated("A5", SUR, "AbstractSurrogate.calculate_inpl", "component-evaluation", self.prog.module(SUR).cls("AbstractSurrogate"), "surrogate outputs are not merged into the value mapping")
+
+    def a7(self, mod) -> None:
+        for qn in ("Model.get_args", "Model.get_right_hand_side"):
+            fn = mod.func(qn)
+            calls = [c for c in walk_no_nested(fn) if isinstance(c, ast.Call) and norm(c.func) == "self._get_args"]
+            if not calls:
+                raise AnalysisError(f"{qn}: call of _get_args not found")
+            kw = {k.arg: norm(k.value) for k in calls[0].keywords}
+            ok_state = kw.get("variables") in ("self.get_initial_conditions() if variables is None else variables",
+                                                "variables if variables is not None else self.get_initial_conditions()")
+            ok_time = kw.get("time") == "time"
+            if ok_state and ok_time:
+                self.holds("A7", MOD, qn, "supplied-state-and-time", calls[0], "variables (default: initial conditions) and time are forwarded to _get_args")
+            else:
+                self.violated("A7", MOD, qn, "supplied-state-and-time", calls[0],
+                              f"_get_args is called with variables={kw.get('variables')}, time={kw.get('time')}: the query does not evaluate at the state / time the caller supplied",
+                              witness=f"m.{qn.split('.')[1]}({{'x': 5.0}}, time=3.0) answers for the initial state or t = 0")
 
     def a6(self, mod) -> None:
         for qn, callee, kwname in (("Model._get_args_time_course", "self._get_args", "variables"), ("Model.get_right_hand_side_time_course", "self._get_right_hand_side", "args")):
@@ -463,6 +493,9 @@ class C01(Check):
                     "    for time, values in variables.iterrows():\n        args = self._get_args(variables=values.to_dict(), time=cast(float, time), cache=cache)",
                     "    for time, values in zip(variables.index, variables.to_numpy(), strict=True):\n        args = self._get_args(variables=dict(zip(cache.var_names, values, strict=False)), time=cast(float, time), cache=cache)",
                     expect="A6|", quick=True),
+            Variant("get_args-ignores-state", MOD, "Model.get_args", "variables=self.get_initial_conditions() if variables is None else variables", "variables=self.get_initial_conditions()", expect="A7|", quick=True),
+            Variant("rhs-ignores-time", MOD, "Model.get_right_hand_side", "variables=self.get_initial_conditions() if variables is None else variables, time=time", "variables=self.get_initial_conditions() if variables is None else variables, time=0.0", expect="A7|"),
+            Variant("readout-overwrites-argument", MOD, "Model.get_args", "ro.calculate_inpl(name, raw)", "ro.calculate_inpl(ro.args[0], raw)", expect="A5|"),
             Variant("variable-names-sorted", MOD, "Model.get_variable_names", "return list(self._variables)", "return sorted(self._variables)", expect="A2|"),
         ]
 
